@@ -21,6 +21,7 @@ type Env struct {
 	Seed     uint64
 	Tier     string
 	Workers  int
+	Depth    int // bound-scaling factor passed to the simulation processes (VERIF_DEPTH)
 	Start    time.Time
 
 	mu      sync.Mutex
@@ -149,7 +150,11 @@ func NewEnv(verifDir, tier string, seed uint64) (*Env, error) {
 	if n := os.Getenv("VERIF_WORKERS"); n != "" {
 		fmt.Sscanf(n, "%d", &workers)
 	}
-	return &Env{VerifDir: verifDir, RepoDir: repo, WorkDir: work, Seed: seed, Tier: tier, Workers: workers, Start: time.Now(), built: map[string]string{}}, nil
+	depth := 1
+	if tier == "thorough" {
+		depth = 2
+	}
+	return &Env{VerifDir: verifDir, RepoDir: repo, WorkDir: work, Seed: seed, Tier: tier, Workers: workers, Depth: depth, Start: time.Now(), built: map[string]string{}}, nil
 }
 
 // Cleanup removes the work directory.
